@@ -610,6 +610,11 @@ pub(crate) mod verif_mutex {
         hist_proof!(hist_c01_l_p3_n7, NoopLock, 7, P01, 2 | (3 << 2) | (1 << 4), 8);
         hist_proof!(hist_c01_l_p3_n8, NoopLock, 8, P01, 2 | (3 << 2) | (1 << 4), 9);
         hist_proof!(hist_c01_l_p2_n6, NoopLock, 6, P01, 2 | (2 << 2) | (1 << 4), 7);
+        hist_proof!(hist_c02_l_p2_n7, NoopLock, 7, P02, 2 | (2 << 2) | (1 << 4), 8);
+        hist_proof!(hist_c03_l_p2_n7, NoopLock, 7, P03, 2 | (2 << 2) | (1 << 4), 8);
+        hist_proof!(hist_c04_l_p2_n7, NoopLock, 7, P04, 1 | (2 << 2) | (1 << 4), 8);
+        hist_proof!(hist_c17_l_p2_n7, NoopLock, 7, P17, 2 | (2 << 2) | (1 << 4), 8);
+        hist_proof!(hist_c01_l_p2_n7, NoopLock, 7, P01, 2 | (2 << 2) | (1 << 4), 8);
         macro_rules! step_proof {
             ($name:ident, $lock:ty, $fair:expr, $class:expr, $p:expr) => {
                 #[kani::proof]
